@@ -3,7 +3,8 @@
  * optimizable-true : every path of `TransactionGroupOptions::optimizable` that returns `true` has tested: x.is_mergeable(),
                       y.is_mergeable(), (allow_payer_change or x.payer() == y.payer()), x.len() + y.len() <=
                       max_instructions_per_tx, and x.transaction_size_after_merge(y, true, Some(luts), ..) <= max_transaction_size;
-                      every other path returns false (finite-case evaluation of the decision table);
+                      false paths are keyed by the conjunct that failed (finite-case evaluation of the NORMALISED decision
+                      table: boolean carrier locals resolved, a returned comparison counts as branch + constants);
  * merge-guarded    : every `AtomicGroup::merge` call of the crate lies under the TRUE edge of an `optimizable(..)` call on the
                       window pair (x = element 0, y = element 1 of the same `windows(2)` pair), merges INTO the later slot,
                       after the two swaps (take/swap of slot i, then swap of slot j) that move the earlier group there first;
@@ -42,14 +43,21 @@ def _optimizable(ctx, prog):
     }
     count_a = r"^\(\[T\]::len\(%s\) AddWithOverflow \[T\]::len\(%s\)\)\.0$|^\(\[T\]::len\(%s\) AddWithOverflow \[T\]::len\(%s\)\)\.0$" % (x, y, y, x)
     size_a = r"^AtomicGroup::transaction_size_after_merge\(%s, %s, true, Option::Some\{0: %s\}, TransactionGroupOptions::instruction_options\(self, " % (x, y, luts)
+    # `true` only when all four conjunct facts hold — evaluated on normalised paths (boolean carrier locals resolved, a
+    # returned comparison split into its two outcomes), so De Morgan rewrites, operand swaps, hoisted sub-expressions and
+    # `cond_tail` vs `if !cond_tail { return false } true` are all the same to this rule.
+    from ..h_E import norm_paths
+    CONJ = ("mergeable", "payer", "count", "size")
     n_true = n_false = 0
-    for p in A.decision_table(f):
-        if not A.feasible(p) or p["diverges"]:
-            continue
+    bad_true, bad_false, shape = [], [], []
+    covered = {c: 0 for c in CONJ}
+    for p in norm_paths(f, split_ret=True):
         asg = {}
-        unknown = []
-        for c, l, t in p["conds"]:
-            truth = (l != 0) if not isinstance(l, tuple) else True
+        for c, l, is_bool in p["conds"]:
+            if not is_bool:
+                shape.append("non-boolean switch on %s" % str(c)[:60])
+                continue
+            truth = l
             s = str(c)
             hit = False
             for k, rx in pats.items():
@@ -75,25 +83,39 @@ def _optimizable(ctx, prog):
                 if re.match(size_a, str(a)) and str(b) == "self.max_transaction_size" and o in (">", "<="):
                     asg["size_ok"] = (o == "<=")
                     continue
-            unknown.append(s[:90])
+            shape.append(s[:90])
         ret = str(p["ret"])
-        key = ",".join("%s=%d" % (k, v) for k, v in sorted(asg.items()))
+        holds = {"mergeable": asg.get("mx") is True and asg.get("my") is True,
+                 "payer": asg.get("apc") is True or asg.get("same_payer") is True,
+                 "count": asg.get("count_ok") is True, "size": asg.get("size_ok") is True}
+        fails = {"mergeable": asg.get("mx") is False or asg.get("my") is False,
+                 "payer": asg.get("apc") is False and asg.get("same_payer") is False,
+                 "count": asg.get("count_ok") is False, "size": asg.get("size_ok") is False}
         if ret == "true":
             n_true += 1
-            ok = not unknown and asg.get("mx") is True and asg.get("my") is True and asg.get("count_ok") is True and asg.get("size_ok") is True and \
-                (asg.get("apc") is True or asg.get("same_payer") is True)
-            ctx.ob("optimizable-true:%s" % key, ok,
-                   "path returning true tested %s%s" % (asg, "; UNRECOGNISED conditions %s" % unknown if unknown else ""), where=f.where())
+            miss = [c for c in CONJ if not holds[c]]
+            if miss:
+                bad_true.append("a path returns true without establishing %s (tested %s)" % (miss, asg))
         elif ret == "false":
             n_false += 1
-            # a false path must have at least one failed requirement (otherwise mergeable pairs are refused for no reason)
-            failed = asg.get("mx") is False or asg.get("my") is False or asg.get("count_ok") is False or asg.get("size_ok") is False or \
-                (asg.get("apc") is False and asg.get("same_payer") is False)
-            ctx.ob("optimizable-false:%s" % key, failed and not unknown, "path returning false has a failed requirement: %s" % asg, where=f.where())
+            fl = [c for c in CONJ if fails[c]]
+            for c in fl:
+                covered[c] += 1
+            if not fl:
+                bad_false.append("a path returns false although no requirement failed (tested %s)" % asg)
         else:
-            ctx.ob("optimizable-true:shape", False, "optimizable returns a non-constant %s" % ret[:80], where=f.where())
-    ctx.floor("optimizable-true", n_true, 2)
-    ctx.floor("optimizable-false", n_false, 5)
+            shape.append("returns %s" % ret[:60])
+    ctx.ob("optimizable-true:shape", not shape, "every condition of optimizable is one of the recognised atoms%s" % ("; UNRECOGNISED %s" % shape[:3] if shape else ""),
+           where=f.where(), nontrivial=False)
+    ctx.ob("optimizable-true:all-conjuncts", not bad_true and n_true >= 1,
+           "all %d paths returning true establish mergeable(x)&mergeable(y), (allow_payer_change | same payer), count <= max_instructions_per_tx, "
+           "size_after_merge <= max_transaction_size%s" % (n_true, "; VIOLATED: %s" % bad_true[:2] if bad_true else ""), where=f.where())
+    ctx.ob("optimizable-false:no-spurious-refusal", not bad_false, "all %d paths returning false have a failed requirement%s" % (
+        n_false, "; VIOLATED: %s" % bad_false[:2] if bad_false else ""), where=f.where())
+    for c in CONJ:
+        ctx.ob("optimizable-false:%s" % c, covered[c] >= 1, "a failing `%s` requirement leads to false on %d path(s)" % (c, covered[c]), where=f.where())
+    ctx.floor("optimizable-true", n_true, 1)
+    ctx.floor("optimizable-false", n_false, 4)
 
 
 def _merge_sites(ctx, prog):
